@@ -61,6 +61,24 @@ def main(tier):
                 sites.append((sname, pn, t["name"], bool(p.get("optional"))))
     n_eval = 0
     nrand = 40 if tier == "quick" else 1500
+    # the neighbourhood of every power of two a fixed-width integer type could end at
+    POW2 = sorted({sg * (2**k + d) for k in (7, 8, 15, 16, 24, 30, 31, 32, 33, 53, 63, 64) for d in (-1, 0, 1) for sg in (1, -1)})
+
+    class CtxGen(Gen):
+        """siblings: every optional property present, booleans fixed, strings non-empty"""
+
+        def __init__(self, *a, flag=True, **kw):
+            super().__init__(*a, **kw)
+            self.flag = flag
+
+        def base(self, n):
+            if n == "boolean":
+                return self.flag
+            if n == "string":
+                return "non-empty reason"
+            return super().base(n)
+
+    n_ctx = 0
     for sname, pn, kind, optional in sites:
         cls = getattr(T, sname, None)
         if cls is None:
@@ -75,7 +93,7 @@ def main(tier):
             continue
         an = snake(pn)
         lo = INT_MIN if kind == "integer" else 0
-        values = list(BOUNDARY[kind]) + [r.randrange(-(2**33), 2**33) for _ in range(nrand // 2)] + [r.randrange(lo, INT_MAX + 1) for _ in range(nrand // 2)]
+        values = list(BOUNDARY[kind]) + POW2 + [r.randrange(-(2**33), 2**33) for _ in range(nrand // 2)] + [r.randrange(lo, INT_MAX + 1) for _ in range(nrand // 2)]
         for v in values:
             n_eval += 1
             exp = in_range(kind, v)
@@ -110,6 +128,31 @@ def main(tier):
                     rep.fail("constructor rejection is not ValueError|%s" % type(cerr).__name__, {"site": "%s.%s" % (sname, pn), "value": v})
                 elif "%s.%s" % (sname, an) not in str(cerr):
                     rep.fail("ValueError does not name Class.attr", {"site": "%s.%s" % (sname, pn), "message": str(cerr)})
+        # the same verdicts whatever the SIBLING properties hold (all present, booleans true / false),
+        # and with the probed key first or last in the JSON object
+        for flag in (True, False):
+            try:
+                ctree = CtxGen(mm, rng_for(common.seed(), "C12-ctx", sname, flag), maxdepth=2, p_opt=1.0, flag=flag).gen({"kind": "reference", "name": sname})
+                cj = to_json(ctree)
+                py.conv.structure(cj, cls)
+            except Exception:
+                continue  # context value does not parse: not this check's subject
+            for v in list(BOUNDARY[kind]) + POW2:
+                exp = in_range(kind, v)
+                for first in (True, False):
+                    n_ctx += 1
+                    rest = {k: x for k, x in cj.items() if k != pn}
+                    j2 = dict([(pn, v)] + list(rest.items())) if first else dict(list(rest.items()) + [(pn, v)])
+                    try:
+                        o = py.conv.structure(j2, cls)
+                        s_ok = getattr(o, an) == v
+                        if not s_ok:
+                            rep.fail("parsed integer altered", {"site": "%s.%s" % (sname, pn), "value": v, "got": getattr(o, an)})
+                            continue
+                    except Exception:
+                        s_ok = False
+                    if s_ok is not exp:
+                        rep.fail("converter %s %s value|%s" % ("accepts out-of-range" if s_ok else "rejects in-range", kind, "%s.%s" % (sname, pn)), {"value": v, "siblings": "all present, booleans %s" % flag, "json": j2})
         # None accepted iff optional; bool / float / str never (not ints of the range type)
         for v, lab in ((None, "None"), (1.0, "float"), ("1", "str"), (1.5, "float")):
             n_eval += 1
@@ -239,9 +282,10 @@ def main(tier):
     if have_ic and (counters["integer"] == 0 or counters["uinteger"] == 0):
         rep.inconc("validator contracts evaluated %s times: generated fields bypass the contracted functions" % counters)
     cov = {
-        "evaluations": n_eval + nplain,
-        "distinct_nontrivial": len(sites) * len(BOUNDARY["integer"]),
-        "rule": "every directly integer/uinteger-typed flattened property (from the metamodel) x boundary set x seeded random ints, constructor and converter entry points compared with the range predicate; validator functions on plain Python values of many types; non-trivial = distinct (site, boundary value)",
+        "evaluations": n_eval + nplain + n_ctx,
+        "distinct_nontrivial": len(sites) * (len(BOUNDARY["integer"]) + len(POW2)),
+        "sibling_context_probes": n_ctx,
+        "rule": "every directly integer/uinteger-typed flattened property (from the metamodel) x boundary set (incl. the neighbourhood of 2^7 .. 2^64) x seeded random ints, constructor and converter entry points compared with the range predicate; validator functions on plain Python values of many types; non-trivial = distinct (site, boundary value)",
         "integer_sites": len(sites),
         "site_value_probes": n_eval,
         "plain_value_probes": nplain,
